@@ -18,7 +18,7 @@ CONFIG = 'crates/anemo/src/config.rs'
 TYPES = P.TYPES
 TIMEOUT = 600
 # vacuity guard: cover points that must be reached: history: an add onto an existing entry; ticks: a dial, a re-dial after 1 failure, after 2
-COVER = {'active_peers_history': [0], 'background_dialing_ticks': [0, 1, 2]}
+COVER = {'active_peers_history': [0], 'who_is_dialed': [0], 'background_dialing_ticks': [0, 1, 3, 4]}
 
 PRELUDE = r'''// GENERATED on every run by /verif/vc from /repo's working tree -- do not edit
 #![allow(dead_code, unused, non_upper_case_globals, non_camel_case_types, static_mut_refs)]
@@ -84,7 +84,7 @@ impl<T> RwLock<T> {
     pub fn write(&self) -> std::result::Result<std::cell::RefMut<'_, T>, ()> { self.acquisitions.set(self.acquisitions.get() + 1); Ok(self.cell.borrow_mut()) }
 }
 // tokio::sync::broadcast: ONE channel per harness; the log of everything ever sent is a static
-pub static mut EVENT_LOG: [Option<PeerEvent>; 8] = [None, None, None, None, None, None, None, None];
+pub static mut EVENT_LOG: [Option<PeerEvent>; 32] = [const { None }; 32];
 pub static mut EVENT_LEN: usize = 0;
 pub fn event_len() -> usize { unsafe { EVENT_LEN } }
 pub fn event(i: usize) -> PeerEvent { unsafe { EVENT_LOG[i].clone().unwrap() } }
@@ -100,7 +100,7 @@ pub mod broadcast {
     }
 }
 // tokio::sync::oneshot: slots in a static table; a channel is its slot index
-pub static mut ONESHOT: [Option<std::result::Result<PeerId, ()>>; 8] = [None, None, None, None, None, None, None, None];
+pub static mut ONESHOT: [Option<std::result::Result<PeerId, ()>>; 32] = [const { None }; 32];
 pub static mut ONESHOT_NEXT: usize = 0;
 pub mod oneshot {
     use super::*;
@@ -122,7 +122,7 @@ pub mod mpsc { pub struct Receiver<T> { pub _t: std::marker::PhantomData<T> } }
 pub struct Instant(pub u64);      // nanoseconds
 impl std::ops::Add<Duration> for Instant { type Output = Instant; fn add(self, d: Duration) -> Instant { Instant(self.0 + d.as_nanos() as u64) } }
 pub static mut CLOCK_NS: u64 = 1_000_000_000_000;            // what Instant::now() / elapsed() see
-pub static mut ESTABLISHED_NS: [u64; 16] = [1_000_000_000_000; 16];
+pub static mut ESTABLISHED_NS: [u64; 32] = [1_000_000_000_000; 32];
 impl Instant {
     pub fn now() -> Instant { Instant(unsafe { CLOCK_NS }) }
     pub fn elapsed(&self) -> Duration { Duration::from_nanos(unsafe { CLOCK_NS }.saturating_sub(self.0)) }
@@ -132,7 +132,7 @@ pub struct Address(pub u8);
 pub struct Endpoint { pub id: PeerId }
 impl Endpoint { pub fn peer_id(&self) -> PeerId { self.id } }
 // crate::connection::Connection: clones share the underlying connection; whether connection `sid` was closed is a static table
-pub static mut CLOSED: [bool; 16] = [false; 16];
+pub static mut CLOSED: [bool; 32] = [false; 32];
 pub fn is_closed(sid: usize) -> bool { unsafe { CLOSED[sid] } }
 #[derive(Clone, Debug)]
 pub struct Connection { pub sid: usize, pub peer: PeerId, pub orig: ConnectionOrigin }
@@ -186,7 +186,7 @@ impl Chooser {
     pub fn any_bool(&mut self) -> bool { self.below(2) == 1 }
 }
 fn reset_statics() {
-    unsafe { EVENT_LEN = 0; let mut i = 0; while i < 8 { EVENT_LOG[i] = None; ONESHOT[i] = None; i += 1; } ONESHOT_NEXT = 0; CLOCK_NS = 1_000_000_000_000; let mut i = 0; while i < 16 { CLOSED[i] = false; ESTABLISHED_NS[i] = 1_000_000_000_000; i += 1; } }
+    unsafe { EVENT_LEN = 0; ONESHOT_NEXT = 0; CLOCK_NS = 1_000_000_000_000; let mut i = 0; while i < 32 { EVENT_LOG[i] = None; ONESHOT[i] = None; CLOSED[i] = false; ESTABLISHED_NS[i] = 1_000_000_000_000; i += 1; } }
 }
 fn run_all(name: &str, f: fn(&mut Chooser)) {
     let mut path: Vec<(u32, u32)> = Vec::new();
@@ -217,7 +217,7 @@ pub fn main() {
     if args.len() == 4 && args[1] == "--replay" {
         // re-run ONE choice sequence with the panic message visible
         let choices: Vec<(u32, u32)> = args[3].split(',').filter(|s| !s.is_empty()).map(|s| (s.trim().parse().unwrap(), u32::MAX)).collect();
-        let f: fn(&mut Chooser) = match args[2].as_str() { "active_peers_history" => harness::active_peers_history, "mutual_dial_converges" => harness::mutual_dial_converges, _ => harness::background_dialing_ticks };
+        let f: fn(&mut Chooser) = match args[2].as_str() { "active_peers_history" => harness::active_peers_history, "mutual_dial_converges" => harness::mutual_dial_converges, "who_is_dialed" => harness::who_is_dialed, _ => harness::background_dialing_ticks };
         reset_statics();
         let mut ch = Chooser { path: choices, pos: 0 };
         f(&mut ch);
@@ -227,6 +227,7 @@ pub fn main() {
     std::panic::set_hook(Box::new(|_| {}));
     run_all("active_peers_history", harness::active_peers_history);
     run_all("mutual_dial_converges", harness::mutual_dial_converges);
+    run_all("who_is_dialed", harness::who_is_dialed);
     run_all("background_dialing_ticks", harness::background_dialing_ticks);
 }
 pub mod harness {
@@ -316,19 +317,28 @@ pub mod harness {
     }
 
     // ---------------- C13: background dialing over a few ticks ----------------
-    struct Model { fails: [u32; 2], noticed: [u64; 2], failed_unnoticed: [bool; 2], dialing: [bool; 2] }
+    struct Model { fails: [u32; 2], noticed: [u64; 2], outcome_unnoticed: [u8; 2], dialing: [bool; 2], connected: [bool; 2] }   // outcome: 0 none, 1 failed, 2 succeeded
     fn dial_log(cm: &ConnectionManager, from: usize) -> Vec<(u8, PeerId)> {
         let mut v = Vec::new();
         let mut i = from;
         while i < cm.pending_connections.tasks.len() { if let Task::Dial { address, peer_id, .. } = &cm.pending_connections.tasks[i] { v.push((address.0, peer_id.unwrap())); } i += 1; }
         v
     }
-    pub fn background_dialing_ticks(ch: &mut Chooser) { // @EOBL [C13] @BOUNDED every run of 5 connectivity checks over 2 known peers (any affinity, 0..2 addresses, one of them possibly ourselves or already connected), cap 1 or 100, every dial completing with a failure or staying in flight, time advancing by 1s/10s/20s/61s: only eligible peers are dialed, never twice concurrently, addresses rotate by failure count, after k failures the next dial comes strictly later than noticed + min(60s, k x 10s), and the cap on connections being established is respected
+    pub fn who_is_dialed(ch: &mut Chooser) { // @EOBL [C13] @BOUNDED one connectivity check over every table of 2 known peers (each High / Allowed / Never, 0..2 addresses, the first possibly ourselves, the second possibly already connected), cap 1 or 100: exactly the peers the statement names are dialed (never ourselves, Allowed / Never peers, peers without address, connected peers), at their first address
         let cap: usize = if ch.any_bool() { 1 } else { 100 };
-        let config = Arc::new(Config { max_concurrent_outstanding_connecting_connections: Some(cap), connection_backoff_ms: None, max_connection_backoff_ms: None, max_concurrent_connections: None });
         let ids = [if ch.any_bool() { ME } else { P1 }, P2];
         let aff = [any_affinity(ch), any_affinity(ch)];
         let naddr: [usize; 2] = [ch.below(3) as usize, ch.below(3) as usize];
+        let connected1 = ch.any_bool();
+        dialing_run(ch, cap, ids, aff, naddr, connected1, 1);
+    }
+    pub fn background_dialing_ticks(ch: &mut Chooser) { // @EOBL [C13] @BOUNDED every run of 4 connectivity checks over 2 High-affinity peers with 1..2 addresses each, cap 1 or 100, every dial in flight failing, succeeding or staying in flight, established connections possibly lost again, time advancing by 1s/10s/61s: never two concurrent dials to a peer, addresses rotate by CONSECUTIVE failure count, after k consecutive failures the next dial comes strictly later than noticed + min(60s, k x 10s), the cap on connections being established is respected, and at every check exactly min(eligible, free slots) dials are started (no eligible peer is left waiting while slots are free)
+        let cap: usize = if ch.any_bool() { 1 } else { 100 };
+        let naddr: [usize; 2] = [1 + ch.below(2) as usize, 1 + ch.below(2) as usize];
+        dialing_run(ch, cap, [P1, P2], [PeerAffinity::High, PeerAffinity::High], naddr, false, 4);
+    }
+    fn dialing_run(ch: &mut Chooser, cap: usize, ids: [PeerId; 2], aff: [PeerAffinity; 2], naddr: [usize; 2], connected1: bool, ticks: usize) {
+        let config = Arc::new(Config { max_concurrent_outstanding_connecting_connections: Some(cap), connection_backoff_ms: None, max_connection_backoff_ms: None, max_concurrent_connections: None });
         let known = KnownPeers::new();
         let mut i = 0;
         while i < 2 {
@@ -338,55 +348,73 @@ pub mod harness {
             i += 1;
         }
         let active = ActivePeers::new(8);
-        let connected1 = ch.any_bool();
         if connected1 { let _ = active.add(&ME, conn(1, P2, ConnectionOrigin::Inbound)); }
         let mut cm = ConnectionManager {
             config, endpoint: Arc::new(Endpoint { id: ME }), mailbox: mpsc::Receiver { _t: std::marker::PhantomData },
             pending_connections: JoinSet::new(), connection_handlers: JoinSet::new(), pending_dials: HashMap::default(), dial_backoff_states: HashMap::default(),
             active_peers: active, known_peers: known, service: Svc,
         };
-        let mut m = Model { fails: [0; 2], noticed: [0; 2], failed_unnoticed: [false; 2], dialing: [false; 2] };
+        let mut m = Model { fails: [0; 2], noticed: [0; 2], outcome_unnoticed: [0; 2], dialing: [false; 2], connected: [false, connected1] };
         let mut now = Instant(1_000_000_000_000);
+        let mut next_sid = 2;
         let mut tick = 0;
-        while tick < 5 {
-            // what this tick will notice
+        while tick < ticks {
+            // what this check will notice about dials that completed since the last one
             let mut p = 0;
-            while p < 2 { if m.failed_unnoticed[p] { m.failed_unnoticed[p] = false; m.fails[p] += 1; m.noticed[p] = now.0; m.dialing[p] = false; } p += 1; }
+            while p < 2 {
+                if m.outcome_unnoticed[p] == 1 { m.fails[p] += 1; m.noticed[p] = now.0; m.dialing[p] = false; }
+                if m.outcome_unnoticed[p] == 2 { m.fails[p] = 0; m.dialing[p] = false; }        // a success ends the run of CONSECUTIVE failures
+                m.outcome_unnoticed[p] = 0;
+                p += 1;
+            }
+            // who the statement says must be dialed now
+            let mut eligible = 0;
+            let mut p = 0;
+            while p < 2 {
+                let waited = m.fails[p] == 0 || now.0 > m.noticed[p] + std::cmp::min(60_000_000_000u64, 10_000_000_000u64 * m.fails[p] as u64);
+                if matches!(aff[p], PeerAffinity::High) && ids[p] != ME && naddr[p] > 0 && !m.connected[p] && !m.dialing[p] && waited { eligible += 1; }
+                p += 1;
+            }
             let before = cm.pending_connections.tasks.len();
             cm.handle_connectivity_check(now);
             let dials = dial_log(&cm, before);
-            assert!(cm.pending_connections.tasks.len() <= std::cmp::max(cap, before));                      // cap on connections being established
+            assert!(cm.pending_connections.tasks.len() <= std::cmp::max(cap, before), "cap on connections being established exceeded");
+            assert!(dials.len() == std::cmp::min(eligible, cap.saturating_sub(before)), "number of dials started differs from min(eligible peers, free slots)");
             let mut d = 0;
             while d < dials.len() {
                 let (addr, who) = dials[d];
                 let p = if who == ids[0] { 0 } else { 1 };
                 assert!(who == ids[p]);
-                assert!(matches!(aff[p], PeerAffinity::High) && who != ME && naddr[p] > 0);                // who may be dialed at all
-                assert!(!(p == 1 && connected1));                                                          // not a connected peer
-                assert!(!m.dialing[p]);                                                                    // not a peer already being dialed
+                assert!(matches!(aff[p], PeerAffinity::High) && who != ME && naddr[p] > 0, "dialed a peer that must never be background-dialed");
+                assert!(!m.connected[p], "dialed a connected peer");
+                assert!(!m.dialing[p], "dialed a peer that is already being dialed");
                 if m.fails[p] > 0 { cover(1); if m.fails[p] > 1 { cover(2); }
                     let wait = std::cmp::min(60_000_000_000u64, 10_000_000_000u64 * m.fails[p] as u64);
-                    assert!(now.0 > m.noticed[p] + wait);                                                  // no sooner than min(max, k x step) after the failure was noticed
+                    assert!(now.0 > m.noticed[p] + wait, "dialed sooner than min(max-backoff, k x step) after the failure was noticed");
                 }
-                assert!(addr == (10 * p + (m.fails[p] as usize % naddr[p])) as u8);                        // rotate through the addresses in order
+                assert!(addr == (10 * p + (m.fails[p] as usize % naddr[p])) as u8, "address rotation does not follow the consecutive-failure count");
                 m.dialing[p] = true; cover(0);
                 d += 1;
             }
-            // complete some of the dials in flight with a failure (the event loop hands the result to handle_connecting_result)
+            // let some of the dials in flight complete: failure or success (the event loop hands the result to handle_connecting_result)
             let mut t = 0;
             while t < cm.pending_connections.tasks.len() {
-                let fail = ch.any_bool();
-                if fail {
+                let outcome = ch.below(3);          // 0 stays in flight, 1 fails, 2 succeeds
+                if outcome != 0 {
                     if let Task::Dial { address, peer_id, oneshot } = cm.pending_connections.tasks.remove(t) {
                         let who = peer_id.unwrap();
                         let p = if who == ids[0] { 0 } else { 1 };
-                        m.failed_unnoticed[p] = true;
-                        cm.handle_connecting_result(ConnectingOutput { connecting_result: Err(Error), maybe_oneshot: Some(oneshot), target_address: Some(address), target_peer_id: peer_id });
+                        m.outcome_unnoticed[p] = outcome as u8;
+                        let result = if outcome == 1 { Err(Error) } else { next_sid += 1; m.connected[p] = true; cover(3); Ok(conn(next_sid, who, ConnectionOrigin::Outbound)) };
+                        cm.handle_connecting_result(ConnectingOutput { connecting_result: result, maybe_oneshot: Some(oneshot), target_address: Some(address), target_peer_id: peer_id });
                     }
                 } else { t += 1; }
             }
-            let dt = ch.below(4);
-            now = now + if dt == 0 { Duration::from_secs(1) } else if dt == 1 { Duration::from_secs(10) } else if dt == 2 { Duration::from_secs(20) } else { Duration::from_secs(61) };
+            // an established connection may be lost again before the next check
+            let mut p = 0;
+            while p < 2 { if m.connected[p] && ch.any_bool() { cm.active_peers.remove(&ids[p], DisconnectReason::ConnectionClosed); m.connected[p] = false; cover(4); } p += 1; }
+            let dt = ch.below(3);
+            now = now + if dt == 0 { Duration::from_secs(1) } else if dt == 1 { Duration::from_secs(10) } else { Duration::from_secs(61) };
             tick += 1;
         }
     }
